@@ -2,12 +2,16 @@
 // Everything between `//@fn`/`//@item` and `//@end` is replaced by text extracted from /repo on every run (vx/bundle.py).
 // Everything else is the hand-written contract prelude.
 //
-// Abstraction.  An edge denotes a *complement-edge term* `CE` (its tag + the node it points to, children are again
-// edges) -- this is what the hash-consing contract speaks about ("edges are equal iff tag and node are equal").  The
-// *meaning* of an edge is the ordinary BDD `Tree` obtained by pushing all complement marks down to the leaves
-// (`tv(c) = ex(c, false)`), so that all propositional specifications (`sem`, `qsem`, `qsem2`, `cenv`, `senv`, `pick_ok`)
-// are literally those of the simple-BDD bundle: an independent node-by-node interpretation of the diagram.
-// Normal form (C03): `cwf` = ordered, reduced (then != else as edges) and every then-edge uncomplemented.
+// Abstraction.  An edge denotes a *complement-edge term* `CE { neg, node }` (its tag + the node it points to; the two
+// children of a node are again edges) -- this is what the hash-consing contract speaks about ("edges are equal iff tag
+// and node are equal").  The *meaning* of an edge is the ordinary BDD `Tree` obtained by pushing all complement marks
+// down to the leaves (`tv(c)`), so that all propositional specifications (`sem`, `qsem`, `qsem2`, `cenv`, `senv`,
+// `pick_ok`, `scnt`) are literally those of the simple-BDD bundle: an independent node-by-node interpretation of the
+// diagram.  `csem(c, env) = sem(tv(c), env)`.
+// Normal form (C03): `cwf` = ordered, reduced (then != else as EDGES) and every then-edge uncomplemented.
+// `tv`, `csem`, `nx`, `nwf`, `nbelow` are opaque: exec proofs see them only through "re-fuelling" lemmas over the
+// constructors `cmk` / `ct` and the tag operations `cxor` / `cflip` / `cwith` (contracts/README.md); the exec code lives in
+// several sibling modules because each module has exactly one `broadcast use` and the lemma sets differ.
 #![feature(panic_internals, sized_hierarchy)] // only for the `assert_eq!` specification below
 #![allow(unused_imports, dead_code, unused_variables, unused_mut, unused_parens, unused_braces, noop_method_call, unreachable_patterns)]
 use vstd::prelude::*;
@@ -1934,11 +1938,10 @@ where M: Manager<EdgeTag = EdgeTag, Terminal = BCDDTerminal> + HasApplyCache<M, 
 //@end
 } // mod apply_rec_d
 
-mod apply_rec_r {
+mod apply_rec_ri {
 use super::*;
-use super::apply_rec::*;
 broadcast use {ce_core, ce_tv, crestrict_lemmas};
-//@item file=crates/oxidd-rules-bdd/src/complement_edge/apply_rec.rs path=fn:restrict/enum:InnerResult rename=restrict__InnerResult
+//@item file=crates/oxidd-rules-bdd/src/complement_edge/apply_rec.rs path=fn:restrict/enum:InnerResult rename=restrict__InnerResult vis=pub
 //@end
 // The body of `restrict::inner` uses a labelled block (`let (f, complement) = 'ret_f: { .. break 'ret_f (f, f_neg); .. (f, f_neg) };
 // InnerResult::Done(<tail using f, complement>)`), which the installed Verus rejects and no extractor rule covers.  It is desugared
@@ -1946,7 +1949,7 @@ broadcast use {ce_core, ce_tv, crestrict_lemmas};
 // becomes an early `return` of the tail expression with `complement := f_neg`.  `expect=R10:5` pins 1 label + 3 breaks + 1 occurrence
 // of the first line of the tail expression (identity replacement), so a change of either makes the unit UNDECIDED (anchor lost).
 // `f_neg` / `vars_neg` are the effective tags: the function restricted is `cwith(f, f_neg)`, the cube `cwith(vars, vars_neg)`.
-//@fn file=crates/oxidd-rules-bdd/src/complement_edge/apply_rec.rs path=fn:restrict/fn:inner rename=restrict__inner subst=InnerResult>restrict__InnerResult "selfcall='ret_f: {>{,InnerResult::Done(manager.clone_edge(&f).with_tag_owned(if complement {>InnerResult::Done(manager.clone_edge(&f).with_tag_owned(if complement {" "subst_text=break 'ret_f (f, f_neg);::=return restrict__InnerResult::Done(manager.clone_edge(&f).with_tag_owned(if f_neg { EdgeTag::Complemented } else { EdgeTag::None }));" expect=R10:5 props=C04
+//@fn file=crates/oxidd-rules-bdd/src/complement_edge/apply_rec.rs path=fn:restrict/fn:inner rename=restrict__inner subst=InnerResult>restrict__InnerResult "selfcall='ret_f: {>{,InnerResult::Done(manager.clone_edge(&f).with_tag_owned(if complement {>InnerResult::Done(manager.clone_edge(&f).with_tag_owned(if complement {" "subst_text=break 'ret_f (f, f_neg);::=return restrict__InnerResult::Done(manager.clone_edge(&f).with_tag_owned(if f_neg { EdgeTag::Complemented } else { EdgeTag::None }));" expect=R10:5 props=C04 vis=pub
 //@spec
     requires edge_ok::<M::Edge>(), okc(f.cv(), manager.num_levels_spec()), okc(vars.cv(), manager.num_levels_spec()),
         f.cv() == cmk(f.cv().neg, fnode.level_spec(), fnode.then_c(), fnode.else_c()), flevel == fnode.level_spec(),
@@ -1962,6 +1965,13 @@ broadcast use {ce_core, ce_tv, crestrict_lemmas};
     },
     decreases u32::MAX as int - ctop(f.cv()), u32::MAX as int - ctop(vars.cv()),
 //@end
+} // mod apply_rec_ri
+
+mod apply_rec_r {
+use super::*;
+use super::apply_rec::*;
+use super::apply_rec_ri::*;
+broadcast use {ce_core, ce_tv, crestrict_lemmas};
 //@fn file=crates/oxidd-rules-bdd/src/complement_edge/apply_rec.rs path=fn:restrict hoist=inner>restrict__inner,InnerResult>restrict__InnerResult nodecr expect=R5:1 props=C04,C06 vis=pub
 //@spec
     requires edge_ok::<M::Edge>(), okc(f.cv(), manager.num_levels_spec()), okc(vars.cv(), manager.num_levels_spec()),
